@@ -1,5 +1,6 @@
 (* Property C05 — serialization and persistence round trip.  Statements only; proofs in Proofs/. *)
-From PG Require Import Common.Tactics Model.Json Model.MemFS Model.MemSeq Proofs.JsonProofs Proofs.JsonStrProofs.
+From PG Require Import Common.Tactics Model.Json Model.MemFS Model.MemSeq Proofs.JsonProofs Proofs.JsonStrProofs
+  Proofs.MemFSPaths Proofs.MemFSTree Proofs.MemFSProofs.
 
 (* Object form: pg.from_json (pg.to_json v) is v, for every value outside the reserved encodings. *)
 Theorem C05_json_roundtrip : forall q ct v, no_quirks q -> ct_ok ct = true -> ser_ok ct v = true ->
@@ -68,3 +69,78 @@ Theorem C05_bool_key_refuted :
   from_json q_none ex_ct (to_json (PDict [(KB true, PNone)])) = Ok (PDict [(KB true, PNone)]).
 Proof. exact bool_key_refuted. Qed.
 Print Assumptions C05_bool_key_refuted.
+
+(* ---- the in-memory file system ------------------------------------------------------------------- *)
+
+(* _parent_and_name agrees with _locate on every path routed to /mem/: the components of a path are
+   those of path[:rpos] followed by the file name (the repaired _internal_path; with str.lstrip this
+   is false for '/mem/m.json'). *)
+Theorem C05_memfs_parent_and_name : forall p h t, routed p = true -> rsplit p = Some (h, t) ->
+  components p = components h ++ name_part t.
+Proof. exact components_rsplit. Qed.
+Print Assumptions C05_memfs_parent_and_name.
+
+Theorem C05_memfs_lookalike_paths :
+  components p_mjson = [[109; 46; 106; 115; 111; 110]%N] /\
+  components p_em = [[101%N]; [109%N]] /\
+  components p_memx = [[109; 101; 109]%N; [120%N]].
+Proof. exact lookalike_components. Qed.
+Print Assumptions C05_memfs_lookalike_paths.
+
+(* Refinement: after any history of save / write / append / rm / mkdirs / exists / listdir / isdir /
+   line-sequence operations over any path strings, the text found at every component path is the one
+   the last-writer map computes from the operations that reported success. *)
+Theorem C05_memfs_refines_map : forall h root, wf_node root = true ->
+  forall cs, file_at (run_fs root h) cs = afold (file_at root) (trace_of root h) cs.
+Proof. exact memfs_refines_trace. Qed.
+Print Assumptions C05_memfs_refines_map.
+
+Theorem C05_memfs_read_your_writes : forall h root p, wf_node root = true ->
+  (forall c, afold (file_at root) (trace_of root h) (components p) = Some c -> read_file (run_fs root h) p = FOk c) /\
+  (afold (file_at root) (trace_of root h) (components p) = None -> exists e, read_file (run_fs root h) p = FErr e).
+Proof. exact read_your_writes_trace. Qed.
+Print Assumptions C05_memfs_read_your_writes.
+
+(* The last successful save to a path is what is read there, whatever was done to other paths since. *)
+Theorem C05_memfs_last_save_wins : forall root h p t1 p' c t2, wf_node root = true ->
+  trace_of root h = t1 ++ (OSave p' c, RUnit) :: t2 ->
+  components p' = components p -> slashed p' = false ->
+  (forall x, In x t2 -> ~ touches (fst x) (components p)) ->
+  read_file (run_fs root h) p = FOk c.
+Proof. exact last_save_wins. Qed.
+Print Assumptions C05_memfs_last_save_wins.
+
+Theorem C05_memfs_removed_stays_removed : forall root h p t1 p' t2, wf_node root = true ->
+  trace_of root h = t1 ++ (ORm p', RUnit) :: t2 ->
+  rm_target p' = components p ->
+  (forall x, In x t2 -> ~ touches (fst x) (components p)) ->
+  exists e, read_file (run_fs root h) p = FErr e.
+Proof. exact removed_stays_removed. Qed.
+Print Assumptions C05_memfs_removed_stays_removed.
+
+(* pg.load returns the last value saved (string form of C05_str_roundtrip written to the file). *)
+Theorem C05_memfs_load_last_saved : forall (dumps : jv -> str) (loads : str -> option jv),
+  (forall j, sj_ok j = true -> loads (dumps j) = Some j) ->
+  forall q ct root h p t1 p' v t2,
+  (q_empty_tuple q = false \/ no_empty_tuple v = true) -> ct_ok ct = true -> ser_ok ct v = true -> str_ok v = true ->
+  wf_node root = true ->
+  trace_of root h = t1 ++ (pg_save_op pv (to_str str dumps) p' v, RUnit) :: t2 ->
+  components p' = components p -> slashed p' = false ->
+  (forall x, In x t2 -> ~ touches (fst x) (components p)) ->
+  pg_load pv (of_str str loads q ct) (run_fs root h) p = FOk (Ok v).
+Proof. exact load_last_saved_json. Qed.
+Print Assumptions C05_memfs_load_last_saved.
+
+(* Line sequences on /mem/: the records read are the records written since the last truncating open. *)
+Theorem C05_lineseq_append_read : forall root h p rs, wf_node root = true ->
+  file_at root (components p) = None ->
+  track (components p) (trace_of root h) = TRecords rs -> forallb no_nl rs = true ->
+  seq_read (run_fs root h) p = FOk rs.
+Proof. exact lineseq_append_read. Qed.
+Print Assumptions C05_lineseq_append_read.
+
+Theorem C05_lineseq_newline_record_refuted :
+  let h := [OSeqWrite p_em w_mode [[97; 10; 98]%N]] in
+  seq_read (run_fs empty_fs h) p_em = FOk [[97%N]; [98%N]].
+Proof. exact newline_record_refuted. Qed.
+Print Assumptions C05_lineseq_newline_record_refuted.
